@@ -60,6 +60,10 @@ def gen(tape: Tape, tier: str) -> dict:
         case["knobs"] = swarm_knobs(tape, len(case["chunks"][-1]))
         case["meta"]["ngroups"] = 0
         return case
+    if tape.chance("gen.kind.multi", 0.12):
+        from ..redcase import gen_multi_by_case
+
+        return gen_multi_by_case(tape)
     return gen_reduce_case(
         tape,
         funcs=ALL_TREE_FUNCS + ["first", "last", "median", "nanmedian", "quantile", "nanquantile"],
